@@ -123,8 +123,10 @@ class Sim:
                   f"{int(ss.entropy)} {int(ss.n_children_spawned)} {1 if restarted else 0}", "ok")
         self.emit("occ " + lst([len(st.engine_occ[k]) for k in self.eng_names]), "ok")
         self.emit(f"enseng {n_ens} " + " ".join(lst([self.eng_names.index(e) for e in ee]) for ee in ens_engs), "ok")
-        for es, ps in cfg["current"].get("locked", []):
-            self.emit("locked0 " + lst(list(es)) + " " + lst([int(p) for p in ps]), "ok")
+        for entry in cfg["current"].get("locked", []):
+            es, ps = entry[0], entry[1]
+            tail = f" {int(entry[2])}" if len(entry) > 2 else ""
+            self.emit("locked0 " + lst(list(es)) + " " + lst([int(p) for p in ps]) + tail, "ok")
 
     # ------------------------------------------------------------------ plumbing
     def close(self):
@@ -176,8 +178,9 @@ class Sim:
         W = ";".join(",".join(f(x) for x in row) for row in st.state)
         trajs = ",".join("-" if t == "" else str(t.path_number) for t in st._trajs)
         locks = "".join("1" if l else "0" for l in st._locks)
-        locked = ";".join(",".join(str(int(e)) for e in es) + ":" + ",".join(str(int(p)) for p in ps) for es, ps in st.locked)
-        locked0 = ";".join(",".join(str(int(e)) for e in es) + ":" + ",".join(str(int(p)) for p in ps) for es, ps in st.locked0)
+        locked = ";".join(",".join(str(int(e)) for e in t[0]) + ":" + ",".join(str(int(p)) for p in t[1]) for t in st.locked)
+        locked0 = ";".join(",".join(str(int(e)) for e in t[0]) + ":" + ",".join(str(int(p)) for p in t[1]) for t in st.locked0)
+        lockedord = ",".join(str(int(t[2])) for t in st.locked if len(t) > 2)
         frac = ";".join(f"{k}:" + ",".join(repr(float(x)) for x in v["frac"]) for k, v in st.traj_data.items())
         occ = ";".join(",".join(str(int(x)) for x in st.engine_occ[k]) for k in self.eng_names)
         ss = st.rgen.bit_generator._seed_seq
@@ -191,7 +194,7 @@ class Sim:
                     cur = tomli.load(fh)["current"]
                 rfrac = ";".join(f"{k}:" + ",".join(v) for k, v in cur.get("frac", {}).items())
                 ractive = ",".join(str(a) for a in cur.get("active", []))
-                rlocked = ";".join(",".join(str(e) for e in es) + ":" + ",".join(str(p) for p in ps) for es, ps in cur.get("locked", []))
+                rlocked = ";".join(",".join(str(e) for e in t[0]) + ":" + ",".join(str(p) for p in t[1]) for t in cur.get("locked", []))
                 rcstep = str(cur.get("cstep"))
             except Exception as e:  # noqa: BLE001
                 rfrac = "unreadable:" + type(e).__name__
@@ -199,7 +202,8 @@ class Sim:
                 "W": W, "trajs": trajs, "locks": locks, "locked": locked, "locked0": locked0,
                 "toinit": str(st.toinitiate), "cworker": str(st.cworker if st.cworker is not None else 0), "cstep": str(st.cstep),
                 "trajnum": str(st.config["current"]["traj_num"]), "frac": frac, "rows": self.rows_real(),
-                "occ": occ, "rng": f"{int(ss.entropy)}:{int(ss.n_children_spawned)}:{main_draws}"}
+                "occ": occ, "rng": f"{int(ss.entropy)}:{int(ss.n_children_spawned)}:{main_draws}",
+                "lockedord": lockedord}
 
     def rows_real(self):
         """parse the data file the code wrote: pn:frac cols:weight cols with ---- → 0"""
